@@ -92,7 +92,7 @@ var c15HdrFields = []hdrField{
 }
 var c15EntryFields = []hdrField{
 	{"type_lo", 0, 8}, {"type_hi", 8, 8}, {"guid_lo", 16, 8}, {"first_lba", 32, 8}, {"last_lba", 40, 8}, {"attrs", 48, 8},
-	{"name0", 56, 2}, {"name35", 126, 2}, {"name_all", 56, 8},
+	{"name0", 56, 2}, {"name17", 90, 2}, {"name34", 124, 2}, {"name35", 126, 2}, {"name_all", 56, 8},
 }
 
 func c15Values(f hdrField, old uint64, lss int, devSectors uint64) []uint64 {
@@ -111,6 +111,9 @@ func c15Values(f hdrField, old uint64, lss int, devSectors uint64) []uint64 {
 		vs = append(vs, devSectors-1, devSectors, devSectors+1, devSectors-33, 1<<32, 1<<32-1, (1<<63)/uint64(lss), (1<<63)/uint64(lss)+1, max/uint64(lss), max/uint64(lss)+1, 1<<63-1)
 	case "header_size":
 		vs = append(vs, 91, 93, 512, 4096, 1<<20)
+	case "name0", "name17", "name34", "name35":
+		// UTF-16 code units that are only half of a character, and non-characters
+		vs = append(vs, 0xD800, 0xDBFF, 0xDC00, 0xDFFF, 0xFFFE, 0xFEFF)
 	}
 	seen := map[uint64]bool{}
 	var out []uint64
